@@ -218,6 +218,20 @@ def step (s : S) (ws0 : List String) : S × String :=
       | _, _ => (s, "bad-op")
     | some ti =>
       match op with
+      | "side" =>
+        -- another write transaction, on a table the open one does not hold, inserts and commits:
+        -- the committed root changes, the open transaction's view (entries, oldRoot) does not
+        match s.db.wtxn, parseObj rest with
+        | some es, some o =>
+          if (getT es ti).locked || s.db.gcPaused then (s, "bad-op") else
+          let db1 := ({ s.db with wtxn := none }).beginW (ti == 0) (ti == 1)
+          match db1.wtxn with
+          | some es1 =>
+            let (t, old, err) := modify (getT es1 ti) 0 o false
+            let db2 := ({ db1 with wtxn := some (es1.set ti t) }).commit
+            ({ s with db := { db2 with wtxn := s.db.wtxn, oldRoot := s.db.oldRoot } }, s!"{showOO old} {err.str}")
+          | none => (s, "bad-op")
+        | _, _ => (s, "bad-op")
       | "ins" | "insw" | "mod" =>
         match s.db.wtxn, parseObj rest with
         | some es, some o =>
